@@ -48,11 +48,7 @@ def strip(program: tuple) -> tuple:
     return tuple((k, tuple(a for a in acts if a[1] not in ('pause', 'play')), t) for k, acts, t in program)
 
 
-def is_wc_unit(unit: Any) -> bool:
-    try:
-        return unit[0][0][0][0] in ('gate', 'child')
-    except Exception:  # noqa: BLE001
-        return False
+from ._common import is_wc_unit  # noqa: E402
 
 
 def reference(unit: Any) -> Any:
